@@ -27,6 +27,8 @@ def _configs(fs, rng, quick):
     for (start, dur) in [(0, 9), (5, 11), (2.6, 7.7), (0, 0), (7, 1)]:
         out.append({'t': 'gate', 'start': start, 'dur': dur, 'in': rng.choice([one, tone])})
     out += [{'t': 'fixed', 'n': 13}, {'t': 'fixed', 'n': 0}, {'t': 'fixed', 'n': 1},
+            {'t': 'fixed', 'n': 9, 'cls': 'click'}, {'t': 'fixed', 'n': 24, 'cls': 'chirp'}, {'t': 'fixed', 'n': 16, 'cls': 'blclick'},
+            {'t': 'gate', 'start': 2, 'dur': 12, 'in': {'t': 'fixed', 'n': 24, 'cls': 'chirp'}},
             {'t': 'gate', 'start': 4, 'dur': 6, 'in': {'t': 'fixed', 'n': 20}},
             {'t': 'repeat', 'n': 3, 'skip': 1, 'rate': fs / 12.0, 'delay': 2 / fs,
              'in': {'t': 'env', 'window': 'cosine-squared', 'start': 0, 'dur': 8, 'rise': 2, 'in': one}},
